@@ -25,6 +25,7 @@ from .sym import (Explorer, Heap, Infeasible, Obj, Path, Unsupported, VExc,
 from .solve import check_unsat, Verdict
 
 PROOF_TIMEOUT_MS = 20000
+LOOP_SPECS: Dict[Tuple[str, int], Any] = {}     # (function key, loop ordinal)
 
 
 @dataclass
@@ -147,6 +148,7 @@ def _verify_scenario(pkg, fi, contract: Contract, sc: Scenario, summaries,
         path = Path(ex, prefix, heap)
         interp = Interp(pkg, path, summaries, top_key=contract.key)
         interp.inline_only = inline_only
+        interp.loop_specs = LOOP_SPECS
         outcome: Optional[Outcome] = None
         try:
             for a in base_assumptions(heap):
@@ -181,6 +183,14 @@ def _verify_scenario(pkg, fi, contract: Contract, sc: Scenario, summaries,
         except Infeasible:
             continue
         except StopPath:
+            # the path ends at a loop cut / unmatched callee case: only its
+            # intermediate obligations count
+            rep.paths += 1
+            rep.ledger |= path.ledger
+            for oid, opc, goal, why in path.side_obligations:
+                o = rep.ob(f"{prefix_id}/{oid}", "requires", False,
+                           contract.props)
+                o.merge(check_unsat(opc + [z3.Not(goal)], PROOF_TIMEOUT_MS), why)
             continue
         except Unsupported as u:
             o = rep.ob(f"{prefix_id}/*", "engine", contract.public,
